@@ -573,7 +573,7 @@ func c04Body(r *verifx.Rng, max int) []byte {
 }
 
 func runC04(args []string) {
-	f := verifx.ParseFlags("c04", args, 260, 2500)
+	f := verifx.ParseFlags("c04", args, 260, 1500)
 	out := verifx.NewOut()
 	ctx := context.Background()
 	thorough := f.Tier == "thorough"
@@ -650,6 +650,10 @@ func runC04(args []string) {
 			c.get(2)
 			c.copyObj(3, 6)
 			c.copyObj(5, 7)
+			c.put(10, r.Bytes(77), nil)
+			c.copyObj(10, 11) // a single-part object: all five checksums travel
+			c.copyObj(4, 12)  // a COMPOSITE object
+			c.appendObj(6, r.Bytes(3), nil) // append to the COPY of a multipart object
 			c.copyRange(3, 8, 100, 701)
 			c.get(8)
 			c.create(2, 9, "FULL_OBJECT")
